@@ -7,7 +7,7 @@ Every random choice comes from one SplitMix64 state, so a trace is reproducible 
   own    operation whose (projected) output the property under check speaks about
 """
 
-GEN_VERSION = 13
+GEN_VERSION = 14
 
 MASK64 = (1 << 64) - 1
 
@@ -500,6 +500,10 @@ def gen_C14(t, n):
             # both sides of a split view look for the same prefix while both are alive
             st = view_script(t, reg, ["at", "left", "right"], 2)
             t.emit(" ".join(("split_probe %s %s %s %s" % (reg, r.pick(["exact", "exact", "find", "lpm"]), t.existing(reg), " ".join(st))).split()), "own")
+        if r.chance(10):
+            st = view_script(t, reg, ["at", "left", "right"], 2)
+            t.emit(" ".join(("par_mixed %s %d %s" % (reg, 1 + r.below(3), " ".join(st))).split()), "own")
+            t.emit("iter %s" % reg, "own")
         if c < 12:
             # two threads insert / remove values through the two sides of a split view (shared entry counter)
             st = view_script(t, reg, ["at", "left", "right"], 2)
